@@ -235,12 +235,19 @@ class TimeLimitExceededError(Exception):
     pass
 
 
+def _new_tid_generator():
+    # Start counting from the current time (in milliseconds), so that task ids
+    # handed out after a restart of the worker pool never collide with ids
+    # that clients still track from an earlier pool instance.
+    return itertools.count(int(time.time() * 1000))
+
+
 @attrs.define
 class Scheduler:
     working_dir: Path = attrs.field(converter=Path)
     max_cores: int = attrs.field(default=multiprocessing.cpu_count())
 
-    tid_generator: Generator = attrs.field(factory=itertools.count)
+    tid_generator: Generator = attrs.field(factory=_new_tid_generator)
     events: asyncio.Queue = attrs.field(factory=asyncio.Queue)
     task_states: dict = attrs.field(factory=dict)
     tasks: dict = attrs.field(factory=dict)
